@@ -277,3 +277,109 @@ def check_exc_cover(ctx):
                   for _, t in protected_by for h in t.handlers)
         ctx.decide('EXC-COVER', func, f'{txt(call)} covers OSError (open)',
                    hit, at=where)
+
+
+# ---------------------------------------------------- writer side (C14) ---
+
+WRITE_ENV = 'valjean.cambronne.common:write_env'
+TO_FILE = 'valjean.cosette.env:Env.to_file'
+
+
+def check_write_all(ctx):
+    '''write_env writes the entry of EVERY task that has an output
+    directory, whatever its status: a task that is re-run and does not end
+    DONE must overwrite the file an earlier run left, otherwise the next
+    read resurrects the stale DONE entry.'''
+    program = ctx.program
+    func = program.func(WRITE_ENV)
+    loops = [n for n in walk_local(func.node) if isinstance(n, ast.For) and
+             any(isinstance(c, ast.Call) and call_name(c) == 'to_file'
+                 for c in ast.walk(n))]
+    ctx.floor('WRITE-ALL', len(loops), 1, 'per-task loop calling to_file in '
+              'write_env')
+    loop = loops[0]
+    guards = []
+
+    def visit(stmts, conds):
+        for stmt in stmts:
+            if isinstance(stmt, ast.If):
+                leaves = any(isinstance(s, (ast.Continue, ast.Break,
+                                            ast.Return)) for s in stmt.body)
+                has_write = any(isinstance(c, ast.Call) and call_name(c) ==
+                                'to_file' for c in ast.walk(stmt))
+                if leaves or has_write:
+                    guards.append(stmt.test)
+                visit(stmt.body, conds + [stmt.test])
+                visit(stmt.orelse, conds + [stmt.test])
+    visit(loop.body, [])
+    bad = [g for g in guards if 'status' in txt(g) or 'TaskStatus' in txt(g)
+           or 'is_done' in txt(g)]
+    if bad:
+        for test in bad:
+            ctx.violated('WRITE-ALL', func, f'write_env: writing guarded by '
+                         f'`{txt(test)[:60]}`', at=func.where(test),
+                         detail='entries are written only for some statuses: '
+                                'the file of a task that was DONE in an '
+                                'earlier run and is not any more is never '
+                                'overwritten, and is read back as DONE')
+    else:
+        ctx.holds('WRITE-ALL', func, f'write_env: the only skip guards are '
+                  f'{[txt(g)[:40] for g in guards]} (no status filter)',
+                  at=func.where(loop))
+    # every entry of the environment is visited
+    good = 'items()' in txt(loop.iter) or txt(loop.iter) in func.params
+    ctx.decide('WRITE-ALL', func, f'write_env visits {txt(loop.iter)}',
+               True if good else None, at=func.where(loop),
+               nontrivial=False)
+
+
+def check_write_invalidates(ctx):
+    '''Env.to_file opens the DESTINATION itself for writing (truncating it)
+    before it serializes: a write that fails half-way leaves an unreadable
+    file (= not done), never the entry of an earlier run.  Writing to a side
+    file that is renamed over the destination keeps the old entry alive when
+    the write is interrupted.'''
+    program = ctx.program
+    func = program.func(TO_FILE)
+    path_par = func.params[1] if len(func.params) > 1 else 'path'
+    opens = []
+    for node in ast.walk(func.node):
+        if isinstance(node, ast.Call) and call_name(node) == 'open' and \
+                node.args:
+            opens.append(node)
+    ctx.floor('WRITE-INVALIDATE', len(opens), 1, 'open(...) in Env.to_file')
+    assigns = {}
+    for node in walk_local(func.node):
+        if isinstance(node, ast.Assign) and isinstance(node.targets[0],
+                                                       ast.Name):
+            assigns[node.targets[0].id] = node.value
+    for call in opens:
+        target = call.args[0]
+        mode = call.args[1] if len(call.args) > 1 else None
+        for kwd in call.keywords:
+            if kwd.arg == 'mode':
+                mode = kwd.value
+        if isinstance(mode, ast.Name):
+            mode = assigns.get(mode.id, mode)
+        mtxt = mode.value if isinstance(mode, ast.Constant) else None
+        direct = txt(target) == path_par or (
+            isinstance(target, ast.Call) and call_name(target) in (
+                'str', 'Path', 'fspath') and target.args and
+            txt(target.args[0]) == path_par)
+        ctx.decide('WRITE-INVALIDATE', func,
+                   f'to_file: open({txt(target)}, {mtxt!r})',
+                   True if direct and mtxt in ('wb', 'w+b', 'bw') else
+                   False if not direct else None, at=func.where(call),
+                   detail='the entry is serialized to another file than the '
+                          'destination: if the write is interrupted (or the '
+                          'rename never happens) the destination keeps the '
+                          'entry of an earlier run, which is read back as '
+                          'DONE' if not direct else None)
+    renames = [n for n in ast.walk(func.node) if isinstance(n, ast.Call) and
+               call_name(n) in ('replace', 'rename', 'move', 'renames',
+                                'link', 'copyfile') and dotted(receiver(n))
+               in ('os', 'shutil')]
+    for call in renames:
+        ctx.violated('WRITE-INVALIDATE', func, f'to_file: {txt(call)[:50]}',
+                     at=func.where(call),
+                     detail='write-then-rename: see above')
